@@ -20,4 +20,19 @@ PROPS = {
                        "stub": STUB_PTHREAD + ["execution of __atomic/__sync builtins and volatile accesses (own __tsan_* runtime)"]},
         "assumptions": COMMON_ASSUME + ["simulated pthread mutex states POSIX semantics", "happens-before from declared memory orders (c11) / x86 view of volatile+fence (sync)"],
     },
+    "C04": {
+        "harness": "atomics",
+        "variants": ["T.c11.posix", "T.sync.posix", "T.sim.posix"],
+        "quick_s": 9, "thorough_s": 300,
+        "level": "exploration",
+        "rule": ("one evaluation = one simulated run of a generated workload on one int and one pointer-sized word: mixed operations with boundary operands "
+                 "(1-5 tasks), ticket, reference count, CAS-increment loops, message passing (plain payload published through an atomic) or store buffering "
+                 "(Dekker, under an x86-TSO store-buffer model for the c11 build); the recorded invoke/return history is checked for linearizability against "
+                 "wrapping 32-bit / 64-bit C arithmetic; distinct = distinct hash of (operation order per word, event log); non-trivial = more than one context switch"),
+        "probes": ["lin.checked_6plus", "lin.single_threaded", "casinc.retry", "mp.flag_observed", "dekker.both_one"],
+        "components": {"real": ["patomic-c11.c", "patomic-sync.c", "patomic-sim.c (+ pmutex-posix.c)", "pmem.c", "pmain.c"],
+                       "stub": STUB_PTHREAD + ["execution of __atomic/__sync builtins and volatile accesses (own __tsan_* runtime)", "x86-TSO store buffer (c11 build, Dekker workload)"]},
+        "assumptions": COMMON_ASSUME + ["linearizability search capped at 40 calls per word and 4e5 nodes (beyond: inconclusive, counted, never a violation)",
+                                        "store-buffer model covers explicit atomic stores of the c11 build only; fence removal in the sync model is invisible on x86"],
+    },
 }
